@@ -191,6 +191,48 @@ func nhConcSetup(arg json.RawMessage) (func(), func(vrt.Result) (string, string,
 			return obs, "", ""
 		}
 		return body, judge, func() { vrt.UntrackMaps(); cleanup() }
+	case "hops":
+		// a received bundle with a hop-count block waits in the store; it is then handed to several relays at once.
+		// Whatever the order in which the sender threads run and finish, every relay gets hop count received+1.
+		in := gen.Spec{Dst: "dtn://dest/x", Src: "dtn://far/app", Rpt: "dtn://far/app", PCRC: 2, Time: DtnNow() - 1000, Lifetime: 3600000, PayLen: 6, PaySeed: 2,
+			Ext: []gen.BSpec{{Kind: "hop", N: []uint64{16, 3}}}}.Build()
+		n.receive(in, "r0")
+		for _, p := range peers {
+			n.setOutcome(p, true)
+			pp := n.peer(p)
+			pp.up = true
+			n.core.RegisterConvergable(pp)
+		}
+		bid := in.ID().Scrub()
+		before := n.nSends()
+		body := func() { n.core.VerifForward(bid) }
+		judge := func(res vrt.Result) (obs, key, desc string) {
+			var seen []string
+			for _, sd := range n.sendsSince(before) {
+				rb, derr := ref.Decode(sd.Enc)
+				if derr != nil {
+					return "", "transmitted-bytes-undecodable", derr.Error()
+				}
+				hb := rb.Find(ref.THopCount)
+				if hb == nil {
+					return "", "hop-count-block-missing", "the transmitted bundle lacks the hop-count block it was received with"
+				}
+				it, terr := ref.Tokenize(hb.Data, 0, 0)
+				if terr != nil || len(it.Kids) != 2 {
+					return "", "hop-count-block-malformed", fmt.Sprint(terr)
+				}
+				seen = append(seen, fmt.Sprintf("%s:%d/%d", sd.Peer, it.Kids[1].Val, it.Kids[0].Val))
+				if it.Kids[1].Val != 4 || it.Kids[0].Val != 16 {
+					return strings.Join(seen, " "), "hop-count-wrong-for-a-concurrent-sender", fmt.Sprintf("the bundle was received with hop count 3 of 16 and handed to %d relays at once; relay %s got %d of %d instead of 4 of 16", len(peers), sd.Peer, it.Kids[1].Val, it.Kids[0].Val)
+				}
+			}
+			sort.Strings(seen)
+			if len(seen) != len(peers) {
+				return strings.Join(seen, " "), "relay-not-served", fmt.Sprintf("%d of %d relays were handed the bundle", len(seen), len(peers))
+			}
+			return strings.Join(seen, " "), "", ""
+		}
+		return body, judge, cleanup
 	case "forwardrule":
 		// PRoPHET: a retry of a waiting data bundle (sender selection over the connected relay r1) runs while the
 		// destination is encountered (own value 0 -> PInit) and r1's summary vector arrives (r1's value 0 -> 0.5).
